@@ -20,11 +20,17 @@ void fiber_mark_completed(fiber_t* the_fiber, void* result) {
   atomic_store_explicit(&the_fiber->result, result, memory_order_release);
 
   // DETACHED is final: fiber_detach() can land at any time, so the state is
-  // only ever moved away from NONE or WAIT_TO_JOIN, by compare-and-swap
+  // only ever moved away from NONE or WAIT_TO_JOIN, by compare-and-swap.
+  // with a joiner already parked the state becomes JOINED, not
+  // WAIT_FOR_JOINER: until the joiner has been taken out of join_info no other
+  // join, tryjoin or detach may mistake it for the parked finished fiber
   int old_state = atomic_load(&the_fiber->detach_state);
   while (old_state != FIBER_DETACH_DETACHED &&
-         !atomic_compare_exchange_weak(&the_fiber->detach_state, &old_state,
-                                       FIBER_DETACH_WAIT_FOR_JOINER)) {
+         !atomic_compare_exchange_weak(
+             &the_fiber->detach_state, &old_state,
+             old_state == FIBER_DETACH_WAIT_TO_JOIN
+                 ? FIBER_DETACH_JOINED
+                 : FIBER_DETACH_WAIT_FOR_JOINER)) {
     // old_state was reloaded, try again
   }
   if (old_state != FIBER_DETACH_DETACHED) {
